@@ -1041,6 +1041,7 @@ static void obs_wait_enter(int tid, int prim, int64_t tmo, int nfds)
 	(void)prim; (void)nfds;
 	if (th == NULL || th->api_try)
 		return;
+	ext3_wait_enter(th);
 	th->nwaits++;
 	th->wait_tmo = tmo;
 	th->clock_at_wait = th->last_clock;
